@@ -199,7 +199,8 @@ func FieldOf(v *Term, f *types.Var) *Term {
 	if v.Op == "struct" && v.Typ != nil {
 		if st, ok := v.Typ.Underlying().(*types.Struct); ok && st.NumFields() == len(v.Args) {
 			for i := 0; i < st.NumFields(); i++ {
-				if st.Field(i) == f {
+				// (a generic helper names the field of the generic struct, the literal's type is an instance of it)
+				if st.Field(i) == f || st.Field(i).Origin() == f.Origin() {
 					return v.Args[i]
 				}
 			}
